@@ -59,7 +59,7 @@ PROPS = {
     "C13": dict(
         design_ref="DESIGN.md 5.13",
         level_text="Coq theorems over the executable parser model: for all inputs, a strict run without errors implies an identical tolerant run; tolerant mode never reports separator/unclosed errors; smart mode is identical to default mode unless a '(' or '[' follows a line break. MODE GRAMMARS (C13_modes_complete, GrammarModesProofs.v): COMPLETENESS of the parser in all four mode combinations w.r.t. GrammarModes.v, the grammar of C02 with exactly these differences - smart: a '(' or '[' that starts a line does not continue an expression (no call / index across the line break) and a statement may end in front of it exactly as if a semicolon preceded it; tolerant: a statement may end without separator in front of any token that cannot continue it (two statements on one line) and a block may be left open at the end of the input - every program of the mode grammar is parsed to exactly its tree, every complete statement kept, without error; with both modes off the mode grammar is the grammar of C02; the tolerant grammar contains the strict one.",
-        level_note="Trusted: Coq kernel, translator xjs2v (token/precedence/handler tables, ASI list), extraction, harness/driver correspondence. Modelled not verified: the hand-written parser control flow (differentially tested on programs, token-level mutations and fragment soups x 4 modes). Open: the clauses 'tolerant accepts two statements on one line / open blocks keeping complete statements' and 'smart semicolon = as if a semicolon preceded' are explored by the oracle, not yet theorems.",
+        level_note="Trusted: Coq kernel, translator xjs2v (token/precedence/handler tables, ASI list), extraction, harness/driver correspondence. Modelled not verified: the hand-written parser control flow (differentially tested on programs, token-level mutations and fragment soups x 4 modes). GrammarModes.v is the specification of what the two modes accept.",
         technique="Coq proof (simulation of two parser runs by induction on fuel) + model/implementation correspondence",
         suites=[dict(suite="parse", n_quick=3000, n_thorough=100000,
                      what="sources x {strict,tolerant} x {smart on,off}: tree, EOF token, errors, error flag, final context",
@@ -85,7 +85,7 @@ PROPS = {
     "C14": dict(
         design_ref="DESIGN.md 5.14",
         level_text="Partial by nature: a pure Coq model has no schedules. Proved: a write-set analysis regenerated from the source on every run shows no function assigns, aliases or mutates a package-level variable, no WriteTo/Precedence method assigns through its receiver, and Compile/Build/ToString/constructors never assign through the compiler, builder, tree or options they receive (theorems = the generated lists are empty); requesting a source map never changes code or panic behaviour (all trees, all configurations); the debug string of a statement is its compact compilation. Concurrency (16 goroutines, race detector) and shared-object interleavings are explored by the iso oracle/suite, not proved.",
-        level_note="Trusted: Coq kernel, translator xjs2v and in particular its syntactic effects analysis (sees assignments, ++/--, delete/clear/maps.Copy destinations and plain aliasing; not reflection/unsafe), extraction, harness/driver. The Go memory model argument 'no shared mutable state => no data race' is outside Coq.",
+        level_note="Trusted: Coq kernel, translator xjs2v and in particular its syntactic effects analysis (sees assignments, ++/--, delete/clear/copy/maps.Copy destinations, the in-place functions of slices/sort/maps, writes through CodeWriter parameters and through local aliases, plain aliasing of package-level variables; not reflection/unsafe), extraction, harness/driver. The Go memory model argument 'no shared mutable state => no data race' is outside Coq.",
         technique="Coq proof over the writer model + generated write-set lemmas + correspondence; goroutine exploration as search",
         suites=[dict(suite="writer", n_quick=3000, n_thorough=100000, what="random histories of the exported CodeWriter methods: buffer, indent level, mappings"),
                 dict(suite="print", n_quick=1500, n_thorough=50000, what="trees x compiler configurations: code, map, panic",
@@ -111,7 +111,7 @@ PROPS = {
     "C06": dict(
         design_ref="DESIGN.md 5.6",
         level_text="Coq theorems over the printer regenerated from ast.go and the writer, lexer and parser models. For all trees: the semicolon option is read only by the statement-terminator operation (output without semicolons = output with them of the same operations minus the terminators); indentation options made of blanks change only leading whitespace of lines (through cleanEmptyLines). ROUND TRIP (C06_pretty_round_trip, PrettyProofs.v): for every program of the grammar lexed from a source text and every pretty configuration that writes semicolons (any blank indent unit, with or without source map) the formatted output lexes and parses back, without error, to the tree it was printed from - the same tree as the compact output (C01_compact_round_trip) - provided no line of a multi-line literal ends with a blank (KF3). With semicolons off the clause is false (KF1, KF2: reported by the oracle). Byte-for-byte idempotence is explored by the oracle (re-formatting in every configuration).",
-        level_note="Trusted: Coq kernel, translator xjs2v (WriteTo bodies), extraction, harness/driver correspondence (print suite over all option combinations). Modelled not verified: CodeWriter and cleanEmptyLines (strings.TrimSpace modelled on ASCII white space).",
+        level_note="Trusted: Coq kernel, translator xjs2v (WriteTo bodies), extraction, harness/driver correspondence (print suite over all option combinations). Modelled not verified: CodeWriter and cleanEmptyLines (strings.TrimSpace modelled on ASCII white space: exact on every reachable output since the lexer drops trailing Unicode white space of comments); the lexer, parser models for the round trip (differentially tested).",
         technique="Coq proof (simulation of two writer runs; structural invariant of the generated printer) + model/implementation correspondence",
         suites=[dict(suite="writer", n_quick=3000, n_thorough=100000, what="random histories of the exported CodeWriter methods: buffer, indent level, mappings", projection=WRITER_NOMAP),
                 dict(suite="print", n_quick=2000, n_thorough=50000, what="trees x compiler configurations: code",
@@ -187,7 +187,7 @@ PROPS = {
     "C01": dict(
         design_ref="DESIGN.md 4 (C01), 4.1",
         level_text="Coq theorems, for every program of the subset grammar (Grammar.v) lexed from a source text and EVERY output configuration (compact; pretty with any blank indent unit, with or without semicolons; with or without source map): lexing spells every keyword/operator/punctuation token canonically; the parser returns exactly the ECMAScript tree of the token sequence without error (C02); compiling it never panics; the code, with layout bytes (blank, tab, line breaks, ';') removed, is byte for byte the source's token texts in source order - no token is dropped, added, reordered or respelled except the quotes of string literals, whose value is preserved (C07) (C01_source_to_code); and ROUND TRIP (C01_compact_round_trip): the compact output lexes and parses back, without error, to the tree it was printed from - the emitted JavaScript text is a spelling of the same tree. Executing source and output is not expressible in the model (no JavaScript semantics can be installed); it is explored by the oracle with node 20 on generated terminating programs in every configuration.",
-        level_note="Partial by construction: the theorems stop at the token sequence of the output (and at the tree for expression statements, C03b); that equal token sequences with JavaScript's own semicolon insertion behave equally is the semantics of JavaScript, not modelled. Pretty configurations are covered for comment-free trees (comments are C15). Trusted: Coq kernel, translator xjs2v (tables, predicates, WriteTo bodies), extraction, harness/driver correspondence (lex, parse, print, writer suites), Grammar.v and TokenSpec.v as specification. Recorded findings KF1, KF2 (semicolons off), KF3 (pretty trims inside backtick literals), KF9, KF16 are reported by the oracle.",
+        level_note="Partial by construction: the theorems stop at the token sequence and the re-parsed tree of the output; that equal token sequences with JavaScript's own semicolon insertion behave equally is the semantics of JavaScript, not modelled. Pretty configurations are covered for comment-free trees (comments are C15). Trusted: Coq kernel, translator xjs2v (tables, predicates, WriteTo bodies), extraction, harness/driver correspondence (lex, parse, print, writer suites), Grammar.v and TokenSpec.v as specification. Recorded findings KF1, KF2 (semicolons off), KF3 (pretty trims inside backtick literals), KF9, KF16 are reported by the oracle.",
         technique="Coq proof (induction over the grammar's matchers against the generated printer; writer invariant over operation lists) + model/implementation correspondence",
         suites=[dict(suite="lex", n_quick=3000, n_thorough=100000, what="byte strings: all token fields", projection=POS_FREE),
                 dict(suite="parse", n_quick=2000, n_thorough=50000, what="sources x modes: tree, errors", projection=POS_FREE),
